@@ -2140,8 +2140,9 @@ class IrregularLattice(Lattice):
         super().save_hdf5(hdf5_saver, h5gr, subpath)
         hdf5_saver.save(self.regular_lattice, subpath + 'regular_lattice')
         hdf5_saver.save(self.remove, subpath + 'remove')
-        hdf5_saver.save(self.add[0], subpath + 'add_lat_idx')
-        hdf5_saver.save(self.add[1], subpath + 'add_mps_idx')
+        add = self.add if self.add is not None else (None, None)
+        hdf5_saver.save(add[0], subpath + 'add_lat_idx')
+        hdf5_saver.save(add[1], subpath + 'add_mps_idx')
         add_unit_cell = self.unit_cell[len(self.regular_lattice.unit_cell) :]
         add_positions = self.unit_cell_positions[len(self.regular_lattice.unit_cell_positions) :]
         hdf5_saver.save(add_unit_cell, subpath + 'add_unit_cell')
@@ -2153,7 +2154,7 @@ class IrregularLattice(Lattice):
         obj.regular_lattice = hdf5_loader.load(subpath + 'regular_lattice')
         lat_idx = hdf5_loader.load(subpath + 'add_lat_idx')
         mps_idx = hdf5_loader.load(subpath + 'add_mps_idx')
-        obj.add = (lat_idx, mps_idx)
+        obj.add = (lat_idx, mps_idx) if lat_idx is not None else None
         obj.remove = hdf5_loader.load(subpath + 'remove')
         return obj
 
